@@ -3,6 +3,7 @@ package dicescript
 import (
 	"errors"
 	"math"
+	"sort"
 	"strconv"
 )
 
@@ -168,10 +169,15 @@ func funcDir(ctx *Context, this *VMValue, params []*VMValue) *VMValue {
 	typeId := params[0].TypeId
 	var arr []*VMValue
 	if v, ok := builtinProto[typeId]; ok {
+		var keys []string
 		v.Range(func(key string, value *VMValue) bool {
-			arr = append(arr, NewStrVal(key))
+			keys = append(keys, key)
 			return true
 		})
+		sort.Strings(keys) // Range 的顺序是随机的
+		for _, key := range keys {
+			arr = append(arr, NewStrVal(key))
+		}
 	}
 	if typeId == VMTypeNativeObject {
 		v := params[0]
